@@ -157,6 +157,37 @@ def ms7(F, R):
     R.ok("MS7", "(ops)", "every change of the graph in add/bind/put/data is dominated by the table lookup of each id parameter (%d pairs)" % n)
 
 
+def ms8(F, R):
+    """microstack's iterators (`Stack::iter`, `Stack::into_iter`) hold a raw pointer into the stack they were made from and carry no
+    lifetime (audited, DESIGN §3): the borrow checker does not keep the stack alive for them.  An iterator made from a stack that is
+    a *local value* of the function (a clone, a freshly built list) must therefore not leave that function: returned, it points into
+    a dead stack frame, and every use of it reads freed memory.  Iterators over the lists inside the graph's own table are fine: the
+    table lives on the heap and outlives the call."""
+    n = 0
+    for b in F.all_bodies():
+        for site, t in b.calls():
+            c = t["callee"]
+            if c.get("krate") != "microstack" or c.get("name") not in ("iter", "into_iter", "iter_mut"):
+                continue
+            n += 1
+            recv = strip_load(deref_addr(b, b.call_args(t, site)[0]))
+            in_table = mentions(recv, lambda x: x[0] == "field" and x[2] == "Sodg::branches") and recv[0] in ("elem", "field", "item", "some")
+            if in_table:
+                R.ok("MS8", b.where(site), "%s: iterator over a member list inside the graph's table" % fn_key(b))
+                continue
+            me = lambda x: (x[0] == "call" and x[1] == c.get("path") and len(x) > 3 and x[3] == site[0]) or \
+                (x[0] == "iter" and strip_sites(strip_load(x[1])) == strip_sites(recv))
+            escapes = any(mentions(b.expr_local(0, (r, b.term_idx(r))), me) for r in b.returns)
+            if escapes:
+                R.bad("MS8", "MS8/%s/stack-iterator-outlives-its-stack" % fn_key(b), b.where(site),
+                      "an iterator of microstack (a raw pointer without a lifetime) is made from a stack that is a local value of this "
+                      "function and returned: it points into a dead stack frame, every use of it reads freed memory",
+                      {"stack": show(recv, b)[:160]})
+            else:
+                R.ok("MS8", b.where(site), "%s: iterator over a local stack, used within the function" % fn_key(b))
+    R.floor("MS8", "microstack iterator constructions", n, 2)
+
+
 def ms5(F, R):
     sodg = F.adts.get("Sodg")
     if sodg is None:
